@@ -157,6 +157,24 @@ func (r *Run) Record(class string, nontrivial bool, op string, args []val.V, obs
 	}
 }
 
+// CountCase records a case that has no model-side counterpart (direct-oracle-only).
+func (r *Run) CountCase(line string, nontrivial bool, sample string) {
+	h := sha256.Sum256([]byte(line))
+	r.n++
+	if !r.distinct[h] {
+		r.distinct[h] = true
+		if nontrivial {
+			r.nontrivial++
+		}
+	}
+	if len(r.Samples) < 6 && (r.n%53 == 1 || len(r.Samples) < 2) {
+		if len(sample) > 500 {
+			sample = sample[:500] + "..."
+		}
+		r.Samples = append(r.Samples, sample)
+	}
+}
+
 func (r *Run) Violate(key, what string, cases ...string) {
 	for _, v := range r.Viol {
 		if v.Key == key {
